@@ -175,6 +175,33 @@ def _pca_records(ctx, rng, count, rid0, d=None):
     return recs, discarded
 
 
+def _pca_two_records(ctx, rng, count, rid0):
+    """Requests of TWO waveforms (+m and -m on one sample axis per channel): the first component is that axis."""
+    from phylib.io.model import compute_features
+    recs = []
+    for j in range(count):
+        nsw = int(rng.randint(3, 7))
+        nc = int(rng.randint(1, 4))
+        w = np.zeros((2, nsw, nc))
+        for c in range(nc):
+            k = int(rng.randint(0, nsw))
+            m = int(rng.randint(1, 12))
+            w[0, k, c], w[1, k, c] = m, -m
+        with ctx.guard('pca', dict(two=True, w=as_list(w))):
+            F = compute_features(w.astype([np.float32, np.float64][j % 2]))
+            if F.shape != (2, nc, 3):
+                raise ValueError('compute_features returned shape %r' % (F.shape,))
+            F1 = F[:, :, 0]
+            if np.abs(F1 - np.rint(F1)).max() > 1e-4:
+                raise ValueError('first components of a rank-one request are not projections on a unit axis: %r' % (as_list(F1),))
+            Fi = np.zeros(F.shape)
+            Fi[:, :, 0] = np.rint(F1)
+            recs.append(dict(id=rid0 + len(recs), kind='pca2', w=ints(w), F=ints(Fi)))
+        if ctx.abort:
+            break
+    return recs
+
+
 def _pca_long_records(ctx, rng, count, rid0):
     """Requests of 2000..7000 waveforms from the diagonal family (each +/- pair repeated): the principal axes
     are those of ALL requested waveforms. The copies are laid out at random, or so that every 2nd / 3rd
@@ -276,10 +303,14 @@ def run(ctx):
     if ctx.abort:
         return
     recs += long_pca
+    two_pca = _pca_two_records(ctx, rng, 40 if ctx.quick else 600, len(recs) + 1)
+    if ctx.abort:
+        return
+    recs += two_pca
     ctx.part(kind='note', pca_records=len(pca), pca_discarded_not_exact=discarded, pca_long_records=len(long_pca))
     if len(pca) < 10:
         raise MachineryError('PCA family: only %d exact cases (%d discarded)' % (len(pca), discarded))
-    ctx.nontrivial = sum(1 for r in recs if r['kind'] not in ('pca', 'pca_rep') and (
+    ctx.nontrivial = sum(1 for r in recs if r['kind'] not in ('pca', 'pca_rep', 'pca2') and (
         r['rows'] or r['spikes'] != sorted(r['spikes']))) + len(pca)
     ctx.evaluations += len(recs)
     for chunk in [recs[a:a + 500] for a in range(0, len(recs), 500)]:
